@@ -9,12 +9,12 @@
 import DpapiNg.Model.Crypto
 namespace DpapiNg.Toy
 
-def fnvPrime : Nat := 0x100000001b3
+def fnvPrime : UInt64 := 0x100000001b3
 def fnvOffset : Nat := 0xcbf29ce484222325
-def mask64 : Nat := 2 ^ 64
 
+/-- FNV-1a over 64-bit words (wrapping arithmetic) -/
 def fnv (h : Nat) (b : Bytes) : Nat :=
-  b.foldl (fun h x => ((Nat.xor h x) * fnvPrime) % mask64) h
+  (b.foldl (fun (h : UInt64) x => (h ^^^ x.toUInt64) * fnvPrime) h.toUInt64).toNat
 
 /-- length-prefixed serialisation of the parts -/
 def ser (parts : List Bytes) : Bytes :=
